@@ -9,7 +9,7 @@ from pyvc import stdspec
 from pyvc.verify import verify_function
 from pyvc.solve import solve_all
 
-TIMEOUT = {"quick": 20, "thorough": 120}
+TIMEOUT = {"quick": 30, "thorough": 150}
 
 
 def build_registry(repo, prop):
@@ -23,7 +23,7 @@ def build_registry(repo, prop):
     return idx, reg, mod
 
 
-def run(prop, tier, repo):
+def run(prop, tier, repo, short_patterns=()):
     if not os.path.exists(os.path.join(os.path.dirname(os.path.dirname(os.path.abspath(__file__))), "specs", prop + ".py")):
         return None
     t0 = time.time()
@@ -65,12 +65,18 @@ def run(prop, tier, repo):
             todo.append(dict(name="%s/cover:lemma:%s" % (prop, name), kind="cover", carry=True, line=None,
                              smt2=s2.to_smt2(), function="(lemma)", source_sha=None, axioms=[]))
             out["lemmas"] += 1
+    import fnmatch
+    for o in todo:
+        if any(fnmatch.fnmatchcase(o["name"], pat.replace("[", "[[]")) for pat in short_patterns):
+            o["kind_timeout"] = 8      # obligations of recorded findings: short budget
     res = solve_all(todo, timeout_s=TIMEOUT[tier])
     for o, r in zip(todo, res):
-        o.update(verdict=r["verdict"], backend=r["backend"], time=r["time"], model=r["model"], detail=r["detail"])
+        o.update(verdict=r["verdict"], backend=r["backend"], time=r["time"], model=r["model"], detail=r["detail"],
+                 candidate_model=r.get("candidate_model"))
         if o["kind"] == "cover" and r["verdict"] == "unsat":
             out["vacuous"].append("hypotheses contradictory at " + o["name"])
         o.pop("smt2")
+        o.pop("smt2_rel", None)
         out["obligations"].append(o)
     out["trusted"] = sorted(out["trusted"])
     out["inlined"] = sorted(out["inlined"])
